@@ -193,7 +193,7 @@ def emit_table(elements):
     out = ["(* GENERATED by tools/gen_table.py from /repo/src/table.rs -- do not edit. *)",
            "From Coq Require Import ZArith NArith List String.",
            "From CE Require Import TableTypes.",
-           "Import ListNotations. Open Scope string_scope. Open Scope Z_scope.",
+           "Import ListNotations. Local Open Scope string_scope. Local Open Scope Z_scope.",
            "",
            "Definition table_src : list elem_src := ["]
     rows = []
@@ -235,7 +235,7 @@ def emit_nist(path):
     out = ["(* GENERATED by tools/gen_table.py from /repo/data/nist_mass.json -- do not edit. *)",
            "From Coq Require Import ZArith NArith List String.",
            "From CE Require Import TableTypes.",
-           "Import ListNotations. Open Scope string_scope. Open Scope Z_scope.",
+           "Import ListNotations. Local Open Scope string_scope. Local Open Scope Z_scope.",
            "",
            "(* serde_json's Map is a BTreeMap: elements and isotope keys are in byte-wise string order *)",
            "Definition nist_src : list nist_elem := ["]
